@@ -162,6 +162,40 @@ def ob_epfs(b1: bool, d1: bool, b2: bool, b3: bool) -> bool:
     return out == e and log == (['c1'] if d1 else []) + ['c2', 'c3']
 
 
+T_NONE = cooked('<dtml-if c1>T<dtml-else>E(<dtml-var c1 null="nul">)(<dtml-var c1 null="nul">)</dtml-if>|<dtml-unless c1>U(<dtml-var c1 null="nul">)</dtml-unless>'
+                '|<dtml-if c1>T<dtml-elif c2>V<dtml-var c1 null="nul"></dtml-if>')
+
+
+def ob_falsy_kinds_cached(kind: int, b2: bool) -> bool:
+    """a named condition is evaluated once per conditional whatever falsy value it returns (None, '', 0, [], ()) and that
+    value is what references in the chosen body see"""
+    if kind == 0:
+        v, txt = None, 'nul'
+    elif kind == 1:
+        v, txt = '', 'nul'
+    elif kind == 2:
+        v, txt = 0, '0'
+    elif kind == 3:
+        v, txt = [], 'nul'
+    else:
+        v, txt = (), 'nul'
+    log = []
+    out = T_NONE(c1=Cond(log, 'c1', v), c2=Cond(log, 'c2', b2))
+    want = 'E(%s)(%s)|U(%s)|%s' % (txt, txt, txt, ('V' + txt) if b2 else '')
+    return out == want and log == ['c1', 'c1', 'c1', 'c2']
+
+
+T_UNDEF = cooked('<dtml-if nope>T<dtml-else>E[<dtml-var nope missing="M">][<dtml-var "_.has_key(\'nope\')">]</dtml-if>'
+                 '|<dtml-unless nope>U[<dtml-var nope missing="M">]</dtml-unless>|<dtml-if nope>T<dtml-elif c2>V[<dtml-var nope missing="M">]</dtml-if>')
+
+
+def ob_undefined_stays_undefined(b2: bool) -> bool:
+    """a condition name that is not defined counts as false and is still undefined inside the conditional's bodies"""
+    log = []
+    out = T_UNDEF(c2=Cond(log, 'c2', b2))
+    return out == 'E[M][False]|U[M]|' + ('V[M]' if b2 else '') and log == ['c2']
+
+
 class Boom(Exception):
     pass
 
@@ -196,6 +230,8 @@ OBLIGATIONS += [
     Ob('unless_undefined', ob_unless_undef, [], timeout=60, data='b1,d1', selectors='unless with undefined name'),
     Ob('call_once', ob_call, [], timeout=60, data='b1,b2', selectors='dtml-call by name / expr= / "..."'),
     Ob('epfs_if_unless_call', ob_epfs, [], timeout=60, data='b1,d1,b2,b3', selectors='EPFS if/else, unless, call', stubs='relib-escape'),
+    Ob('falsy_kinds_cached', ob_falsy_kinds_cached, ['0 <= kind <= 4'], timeout=100, data='kind of falsy value, b2', selectors='if/else, unless, elif bodies re-referencing the condition'),
+    Ob('undefined_stays_undefined', ob_undefined_stays_undefined, [], timeout=100, data='b2', selectors='undefined condition name referenced inside else / unless / elif bodies'),
     Ob('foreign_keyerror_propagates', ob_foreign_keyerror, [], timeout=60, data='-', selectors='KeyError(other name) from a condition'),
 ]
 ASSUMES = ['namespace stubs never raise KeyError(<name being looked up>): render_blocks_ reads that as "undefined" by design']
